@@ -20,7 +20,7 @@ META = {
     "nshards": {"quick": 4, "thorough": 4},
     "hashseeds": {"quick": [0, 1, 2, 3], "thorough": [0, 1, 2, 3, 5, 7, 11, 13, 17, 101, 1234, 4242, 31337, 65535, 99991, 4294967295]},
     "min_obs": {"all": {"pairs_compared": 2000, "rename_pairs": 300, "split_pairs": 300, "candorder_pairs": 300,
-                        "hashseed_outcomes": 2000, "util_pairs": 300}},
+                        "hashseed_outcomes": 2000, "util_pairs": 300, "candsomitted_pairs": 100, "hashseed_pairs_compared": 3000}},
 }
 
 NAMEPOOL = list(dict.fromkeys(gen.NAMES + gen.PLAIN + ["zz", "0", "Á", "~"]))
@@ -88,6 +88,10 @@ def variants(rnd, spec):
     rnd.shuffle(c2)
     yield "candorder", {"cands": c2, "ballots": bl}, None
     yield "candorder", {"cands": cs[::-1], "ballots": bl}, None
+    # (v') no candidate list at all: the profile derives it from the ballots (only comparable when every candidate is cast)
+    cast = {c for b in bl for g in (b.get("r") or []) for c in g} | {c for b in bl for c in (b.get("s") or {})}
+    if cast == set(cs):
+        yield "candsomitted", {"cands": None, "ballots": bl}, None
 
 
 def run_election(cfg, spec):
@@ -134,6 +138,8 @@ def check_case(ctx, case, vlist=None):
             return
         if r.draws:
             ctx.count("base_random_skipped")
+            # whether a count meets a genuine tie does not depend on the hash seed: remember that this case drew
+            ctx.extra.setdefault("outcomes", {})[canon.jhash(case)] = "consumed-randomness"
             return
         base_sig = lambda ren: outcome_sig(out, ren)  # noqa
         ctx.extra.setdefault("outcomes", {})[canon.jhash(case)] = canon.jhash(outcome_sig(out))
@@ -148,6 +154,8 @@ def check_case(ctx, case, vlist=None):
             ctx.extra.setdefault("cases", {})[canon.jhash(case)] = case
         ctx.count("hashseed_outcomes")
     for kind, vs, pi in (vlist if vlist is not None else variants(rnd, spec)):
+        if kind == "candsomitted" and cfg is None and case["util"] == "pairwise":
+            continue
         ident = (vs == spec)
         ctx.case({"base": case, "variant": kind, "vspec": vs}, nontrivial=n >= 3 and nd >= 3 and not ident)
         if cfg is not None:
@@ -163,6 +171,9 @@ def check_case(ctx, case, vlist=None):
             ctx.count("util_pairs")
         ctx.count("pairs_compared")
         ctx.count(kind + "_pairs")
+        if kind == "candsomitted":
+            # the derived candidate list comes out of a set: its outcome is also compared across hash seeds
+            ctx.extra.setdefault("outcomes", {})[canon.jhash(case) + ":candsomitted"] = canon.jhash(sig2)
         exp = base_sig(pi)
         if exp != sig2:
             what = (cfg["rule"] if cfg else case["util"]) + f": outcome changes under '{kind}'"
@@ -213,8 +224,10 @@ def post(results, fails, counters):
             for k in set(base) & set(o):
                 compared += 1
                 if base[k] != o[k]:
-                    fails.append({"mech": None, "what": f"outcome differs between PYTHONHASHSEED={rs[0]['hashseed']} and {r['hashseed']}",
-                                  "case": {"hashseed_case": rs[0]["extra"].get("cases", {}).get(k), "shard": sh, "case_hash": k,
+                    rand = "consumed-randomness" in (base[k], o[k])
+                    fails.append({"mech": None, "what": (f"a count draws random numbers under one of PYTHONHASHSEED={rs[0]['hashseed']} and {r['hashseed']} only"
+                                                         if rand else f"outcome differs between PYTHONHASHSEED={rs[0]['hashseed']} and {r['hashseed']}"),
+                                  "case": {"hashseed_case": rs[0]["extra"].get("cases", {}).get(k.split(":")[0]), "shard": sh, "case_hash": k,
                                            "hashseeds": [rs[0]["hashseed"], r["hashseed"]]},
                                   "detail": {"a": base.get(k), "b": o.get(k)}})
     counters["hashseed_pairs_compared"] = compared
